@@ -108,7 +108,13 @@ where
         should_continue: impl std::ops::Fn() -> bool + Clone,
     ) -> V {
         debug!("solve_root_goal(canonical_goal={:?})", canonical_goal);
-        assert!(self.stack.is_empty());
+        // A previous root solve may have unwound through us (e.g. a panic in a
+        // database callback). Discard whatever in-progress state it left behind;
+        // only completed results ever reach the cache, so the cache stays valid.
+        if !self.stack.is_empty() {
+            self.stack.clear();
+            self.search_graph.rollback_to(DepthFirstNumber::MIN);
+        }
         let minimums = &mut Minimums::new();
         self.solve_goal(canonical_goal, minimums, solver_stuff, should_continue)
     }
